@@ -82,7 +82,15 @@ def _replay(beh):
     torch.set_default_dtype(default)
     try:
         leaves = []
-        op = bind.build(beh["term"], src, leaves, requires_grad=(d["action"] == "detach"))
+        # half of the cases construct with the dtype left implicit (= torch's default at construction time) ...
+        bind.build.implicit_dtype = d["switch"] == 1
+        try:
+            op = bind.build(beh["term"], src, leaves, requires_grad=(d["action"] == "detach"))
+        finally:
+            bind.build.implicit_dtype = False
+        # ... and switch torch's default dtype between construction and the copy / conversion
+        if d["switch"] == 1:
+            torch.set_default_dtype(torch.float64 if default == torch.float32 else torch.float32)
         action = d["action"]
         if action == "outputs":
             X = torch.ones(op.shape[-1], 2, dtype=src)
@@ -150,7 +158,7 @@ def run(tier, seed):
         d = beh["desc"]
         res.traces += 1
         res.evaluations += 1
-        res.nontrivial.add((d["cls"], tuple(d["b"]), d["src"], d["tgt"], d["default"], d["action"]))
+        res.nontrivial.add((d["cls"], tuple(d["b"]), d["src"], d["tgt"], d["default"], d["action"], d["switch"]))
         for what, msg in fails:
             kind = core.failure_kind(dict(kind="raised" if what == "raised" else "value", msg=msg)) if what in ("raised", "value") else what
             label = what if d["action"] == "outputs" and what not in ("raised",) else ""
